@@ -84,6 +84,26 @@ def run(prop, tier, seed, replay=None):
     r2, consts2 = p_flow.mc_sample("C17", tier, wd)     # PureCalls: the sampler is never written by a call
     # 2. histories on the real code
     path, runs, gstates, nlines = p_sample.gen_routing(tier, wd, seed)
+    # plus Gen_Table graphs (disconnected ones included: G(3,3), G(4,3), G(4,4) slices), interleaved
+    import random
+    rnd = random.Random(seed + 3)
+    tpath = os.path.join(wd, "tgraphs.ndjson")
+    open(tpath, "w").close()
+    for i, c_ in enumerate([dict(V=3, EMIN=3, EMAX=3, WSET={4, 6, 8}, WD=4, DSET={1, 2, 3}, EXTV=3, STRIDE=101, OFFSET=rnd.randrange(101)),
+                            dict(V=4, EMIN=3, EMAX=3, WSET={4, 6}, WD=4, DSET={1, 3}, EXTV=3, STRIDE=61, OFFSET=rnd.randrange(61))]):
+        core.tlc("Gen_Table", core.cfg_text(constants=c_, invariants=["Emit"]), "gen_t_%d" % i, wd, workers=12, timeout=3600, coverage=False, replay_to=tpath)
+    tl = [l for l in open(tpath) if '"div":false' in l and '"L":0' not in l]
+    disc = [l for l in tl if json.loads(l)["l"][-1] > 0 and _disconnected(json.loads(l))]
+    rl = [l for l in open(path)]
+    mixed = os.path.join(wd, "origins.ndjson")
+    with open(mixed, "w") as f:
+        k = max(1, len(rl) // 40)
+        extra = (disc[:40] + tl[:40])
+        for i, l in enumerate(rl):
+            f.write(l)
+            if i % k == 0 and extra:
+                f.write(extra.pop(0))
+    path = mixed
     trace = os.path.join(wd, "api.ndjson")
     s = core.mt("record-api", path, os.path.join(wd, "sum.json"), seed,
                 {"trace": trace, "nolog": nolog, "origins": 12 if tier == "quick" else 60, "args": 4 if tier == "quick" else 8,
@@ -120,6 +140,19 @@ def run(prop, tier, seed, replay=None):
     return core.finish(prop, tier, seed, "model_checking", cov,
                        ["thread interleavings are those the OS scheduler produced in this run; the model quantifies over all of them"],
                        t0, violations, {"runner": "trace-api", "seed": seed})
+
+
+def _disconnected(line):
+    """more than one connected component among the edges (union-find on the vertex labels)"""
+    es = line["g"]["edges"]
+    par = {}
+    def find(x):
+        while par.setdefault(x, x) != x:
+            par[x] = par[par[x]]; x = par[x]
+        return x
+    for a, b in es:
+        par[find(a)] = find(b)
+    return len({find(v) for e in es for v in e}) > 1
 
 
 def inventory():
